@@ -142,6 +142,18 @@ class Fresh:
         return False
 
     def fresh_local(self, fn: Func, name: str, depth: int = 0, site: ast.AST | None = None) -> bool:
+        # `x = x if x else fresh()` refers to itself: the question is answered by the other definitions
+        key = (fn.key, name)
+        busy = self.__dict__.setdefault("_busy", set())
+        if key in busy:
+            return True
+        busy.add(key)
+        try:
+            return self._fresh_local(fn, name, depth, site)
+        finally:
+            busy.discard(key)
+
+    def _fresh_local(self, fn: Func, name: str, depth: int = 0, site: ast.AST | None = None) -> bool:
         f: Func | None = fn
         while f is not None:
             if name in f.params():
